@@ -37,6 +37,10 @@ def do_replay(path):
     common.setup_annet()
     with open(path) as f:
         rp = json.load(f)
+    want_seed = str(rp.get("hashseed") or "0")
+    if os.environ.get("PYTHONHASHSEED", "") != want_seed:
+        # the counterexample was found under another string hash seed: start again under that one
+        os.execve(sys.executable, [sys.executable, "-m", "vt.run", "--replay", path], dict(os.environ, PYTHONHASHSEED=want_seed))
     mod = harness_module(rp["property"])
     res = mod.replay(rp["obligation"], rp["case"])
     if res.get("ok") and rp.get("history"):
@@ -208,7 +212,8 @@ def main():
                     if per_fp[f.get("fingerprint")] > 3:
                         continue
                     rp = {"property": pid, "obligation": o["name"], "case": f["case"], "detail": f.get("detail"),
-                          "fingerprint": f.get("fingerprint"), "history": f.get("history") or []}
+                          "fingerprint": f.get("fingerprint"), "history": f.get("history") or [],
+                          "hashseed": str(f.get("hashseed") or "0")}
                     h = hashlib.sha1(json.dumps(rp, sort_keys=True, default=str).encode()).hexdigest()[:12]
                     d = os.path.join(ROOT, "replays", pid)
                     os.makedirs(d, exist_ok=True)
@@ -218,9 +223,11 @@ def main():
                     todo.append((f, path))
 
                 def _replay(item):
+                    # replayed under the string hash seed of the worker that found it
                     return subprocess.run([sys.executable, "-m", "vt.run", "--replay", item[1]], cwd=ROOT,
                                           capture_output=True, text=True,
-                                          env=dict(os.environ, PYTHONPATH=PYPATH, PYTHONDONTWRITEBYTECODE="1", PYTHONHASHSEED="0"))
+                                          env=dict(os.environ, PYTHONPATH=PYPATH, PYTHONDONTWRITEBYTECODE="1",
+                                                   PYTHONHASHSEED=str(item[0].get("hashseed") or "0")))
                 # every recorded counterexample is replayed in its own fresh interpreter (several at a time)
                 with concurrent.futures.ThreadPoolExecutor(max_workers=max(1, min(8, len(todo)))) as ex:
                     done = list(ex.map(_replay, todo))
